@@ -590,17 +590,27 @@ class AsyncFIXConnection:
         Args:
             resend_msg: ResendRequest(35=2) FIXMessage
         """
+        assert resend_msg.msg_type == FMsg.RESENDREQUEST
+
+        # Parse and validate before anything is touched: an invalid request must not
+        #   leave the connection in RESENDREQ_HANDLING or with a rewound next_num_out
+        begin_seq_no = int(resend_msg[FTag.BeginSeqNo])
+        end_seq_no = int(resend_msg[FTag.EndSeqNo])
+        if begin_seq_no < 1 or begin_seq_no >= self._session.next_num_out:
+            self.log.warning(
+                f"ResendRequest ignored, BeginSeqNo={begin_seq_no} is outside of sent"
+                f" range, next_num_out={self._session.next_num_out}"
+            )
+            return
+
         if self._connection_state != ConnectionState.RESENDREQ_AWAITING:
             await self._state_set(ConnectionState.RESENDREQ_HANDLING)
 
-        assert resend_msg.msg_type == FMsg.RESENDREQUEST
         assert self._connection_state in {
             ConnectionState.RESENDREQ_HANDLING,
             ConnectionState.RESENDREQ_AWAITING,
         }
 
-        begin_seq_no = int(resend_msg[FTag.BeginSeqNo])
-        end_seq_no = int(resend_msg[FTag.EndSeqNo])
         if end_seq_no == 0:
             end_seq_no = sys.maxsize
         self.log.info("Received resent request from %s to %s", begin_seq_no, end_seq_no)
